@@ -268,6 +268,10 @@ func (a *genABI) VerifyTransaction(req *labi.VerifyTransactionRequest) (*labi.Ve
 	if a.outcome[string(req.Transaction.ID)] == "vf" {
 		return &labi.VerifyTransactionResponse{Result: labi.TxVerifyResultInvalid}, nil
 	}
+	if a.outcome[string(req.Transaction.ID)] == "vp" {
+		// not (yet) valid, e.g. a nonce gap: only "ok" lets a transaction into a block
+		return &labi.VerifyTransactionResponse{Result: labi.TxVerifyResultPending}, nil
+	}
 	return &labi.VerifyTransactionResponse{Result: labi.TxVerifyResultOk}, nil
 }
 func (a *genABI) ExecuteTransaction(req *labi.ExecuteTransactionRequest) (*labi.ExecuteTransactionResponse, error) {
